@@ -211,13 +211,70 @@ func ruleKind(c *Ctx) {
 		c.undecided("anchor:initNativeFuncs", token.NoPos, "initNativeFuncs not found")
 	} else {
 		txt := nodeSrc(ifd.Body)
-		c.check(strings.Contains(txt, "sort.Strings(names)"), "index:sorted", ifd.Pos(), "native functions are indexed by the name-sorted key list (as in the resolver)", "initNativeFuncs no longer indexes native functions by the name-sorted key list the resolver uses")
+		_ = txt
+		// the table entry of a native function is stored at the position of its name in a sorted list
+		if inf := c.ssaFunc("interp", "interp.initNativeFuncs"); inf != nil {
+			n, good := 0, true
+			for _, fn := range append([]*ssa.Function{inf}, localCallees(inf)...) {
+				fn := fn
+				allInstrs(fn, func(in ssa.Instruction) {
+					st, ok := in.(*ssa.Store)
+					if !ok {
+						return
+					}
+					ia, ok := st.Addr.(*ssa.IndexAddr)
+					if !ok || traceInterpField(ia.X, 0) != "nativeFuncs" {
+						if !ok {
+							return
+						}
+						// a local slice that becomes the field later: make([]nativeFunc, ...)
+						if sl, isSl := ia.X.Type().Underlying().(*types.Slice); !isSl || !isNamed(sl.Elem(), modPath+"/interp", "nativeFunc") {
+							return
+						}
+					}
+					n++
+					if sl, ok := rangedSliceOfIndex(ia.Index); !ok || !isSortedSlice(sl, in.Block(), 0) {
+						good = false
+					}
+				})
+			}
+			c.check(n > 0 && good, "index:sorted", ifd.Pos(), "native functions are stored at the position of their name in the name-sorted key list (as in the resolver)", "initNativeFuncs no longer indexes native functions by the name-sorted key list the resolver uses")
+		}
 		c.check(strings.Contains(txt, "IterFuncs(") && strings.Contains(txt, ".Native") && strings.Contains(txt, "info.Index"), "index:verified", ifd.Pos(), "setup checks that every native function the program calls sits at its compiled index", "the native-function table is sized from Config.Funcs alone, with no check against the native functions the program was compiled with: executing with a different Funcs map indexes out of range (panic) or calls the wrong function")
 	}
-	rfd := c.funcDecl("internal/resolver", "Resolve")
-	if rfd != nil {
-		txt := nodeSrc(rfd.Body)
-		c.check(strings.Contains(txt, "sort.Strings(nativeNames)"), "index:resolver-sorted", rfd.Pos(), "the resolver numbers native functions in name order", "the resolver no longer numbers native functions in sorted name order")
+	// resolver side: FuncInfo{Native: true, Index: i} takes i from the position in a sorted list
+	{
+		n, good := 0, true
+		var pos token.Pos
+		for _, fn := range c.srcFuncs("internal/resolver") {
+			fn := fn
+			nativeAllocs := map[ssa.Value]bool{}
+			allInstrs(fn, func(in ssa.Instruction) {
+				if st, ok := in.(*ssa.Store); ok {
+					if f, x := fieldOfAddr(st.Addr); f != nil && f.Name() == "Native" && isNamed(deref(x.Type()), modPath+"/internal/resolver", "FuncInfo") {
+						if k, isK := st.Val.(*ssa.Const); isK && k.Value != nil && k.Value.String() == "true" {
+							nativeAllocs[x] = true
+						}
+					}
+				}
+			})
+			allInstrs(fn, func(in ssa.Instruction) {
+				st, ok := in.(*ssa.Store)
+				if !ok {
+					return
+				}
+				f, x := fieldOfAddr(st.Addr)
+				if f == nil || f.Name() != "Index" || !nativeAllocs[x] {
+					return
+				}
+				n++
+				pos = in.Pos()
+				if sl, ok := rangedSliceOfIndex(st.Val); !ok || !isSortedSlice(sl, in.Block(), 0) {
+					good = false
+				}
+			})
+		}
+		c.check(n > 0 && good, "index:resolver-sorted", pos, "the resolver numbers native functions by their position in the name-sorted key list", "the resolver no longer numbers native functions in sorted name order")
 	}
 	// ARITY: len(n.Args) > numParams panics before Params[i]/In(i) indexing (same function, earlier)
 	vfd := c.funcDecl("internal/resolver", "mainVisitor.Visit")
@@ -285,6 +342,164 @@ func kindGuardedAt(c *Ctx, fn *ssa.Function, in ssa.Instruction, depth int) bool
 		})
 	}
 	return sites > 0 && sites == good
+}
+
+// rangedSliceOfIndex: v is the index variable of a loop over a slice (range or counted); returns that slice.
+func rangedSliceOfIndex(v ssa.Value) (ssa.Value, bool) {
+	// the value itself, or the phi it is the increment of, indexes the slice somewhere
+	cands := []ssa.Value{v}
+	if bo, ok := v.(*ssa.BinOp); ok && bo.Op == token.ADD {
+		cands = append(cands, bo.X)
+	}
+	if ph, ok := v.(*ssa.Phi); ok {
+		for _, e := range ph.Edges {
+			cands = append(cands, e)
+		}
+	}
+	for _, cnd := range cands {
+		refs := cnd.Referrers()
+		if refs == nil {
+			continue
+		}
+		for _, r := range *refs {
+			if ia, ok := r.(*ssa.IndexAddr); ok && ia.Index == cnd {
+				if _, isSl := ia.X.Type().Underlying().(*types.Slice); isSl {
+					if b, isB := sliceElemBasic(ia.X); isB && b == types.String {
+						return ia.X, true
+					}
+				}
+			}
+		}
+	}
+	return nil, false
+}
+
+func sliceElemBasic(v ssa.Value) (types.BasicKind, bool) {
+	sl, ok := v.Type().Underlying().(*types.Slice)
+	if !ok {
+		return 0, false
+	}
+	b, ok := sl.Elem().Underlying().(*types.Basic)
+	if !ok {
+		return 0, false
+	}
+	return b.Kind(), true
+}
+
+// isSortedSlice: the slice value was sorted (sort.Strings / slices.Sort / sort.Sort) before the use in block
+// `at`, or is the result of a helper of the package all of whose returns hand back a slice it sorted.
+func isSortedSlice(s ssa.Value, at *ssa.BasicBlock, depth int) bool {
+	if depth > 2 {
+		return false
+	}
+	isSortCall := func(in ssa.Instruction, arg ssa.Value) bool {
+		call, ok := in.(*ssa.Call)
+		if !ok {
+			return false
+		}
+		fo := calleeObj(call)
+		if fo == nil {
+			return false
+		}
+		switch funcFullName(fo) {
+		case "sort.Strings", "slices.Sort", "sort.Sort", "sort.Stable":
+		default:
+			return false
+		}
+		for _, a := range call.Call.Args {
+			if a == arg {
+				return true
+			}
+			if mi, ok := a.(*ssa.MakeInterface); ok && mi.X == arg {
+				return true
+			}
+			if cv, ok := a.(*ssa.ChangeType); ok && cv.X == arg {
+				return true
+			}
+		}
+		return false
+	}
+	if refs := s.Referrers(); refs != nil {
+		for _, r := range *refs {
+			if isSortCall(r, s) && (at == nil || r.Block().Dominates(at)) {
+				return true
+			}
+		}
+	}
+	// a variable that lives in a cell (captured by a closure): another load of the same cell was sorted, and the
+	// cell is not stored to afterwards
+	if ld, ok := s.(*ssa.UnOp); ok && ld.Op == token.MUL {
+		if refs := ld.X.Referrers(); refs != nil {
+			for _, r := range *refs {
+				other, ok := r.(*ssa.UnOp)
+				if !ok || other.Op != token.MUL || other == ld {
+					continue
+				}
+				orefs := other.Referrers()
+				if orefs == nil {
+					continue
+				}
+				for _, or := range *orefs {
+					if !isSortCall(or, other) || (at != nil && !or.Block().Dominates(at)) {
+						continue
+					}
+					// no store to the cell after the sort
+					after := reachableFrom(or.Block())
+					after[or.Block()] = true
+					clean := true
+					for _, r2 := range *refs {
+						if st, isSt := r2.(*ssa.Store); isSt && st.Addr == ld.X && after[st.Block()] {
+							if st.Block() != or.Block() || instrIndex(st.Block(), st) > instrIndex(or.Block(), or) {
+								clean = false
+							}
+						}
+					}
+					if clean {
+						return true
+					}
+				}
+			}
+		}
+	}
+	if call, ok := s.(*ssa.Call); ok {
+		if cal := call.Call.StaticCallee(); cal != nil && len(cal.Blocks) > 0 {
+			n, good := 0, true
+			for _, b := range cal.Blocks {
+				if len(b.Instrs) == 0 {
+					continue
+				}
+				ret, ok := b.Instrs[len(b.Instrs)-1].(*ssa.Return)
+				if !ok {
+					continue
+				}
+				for _, rv := range ret.Results {
+					if _, isSl := rv.Type().Underlying().(*types.Slice); isSl {
+						n++
+						if !isSortedSlice(rv, b, depth+1) {
+							good = false
+						}
+					}
+				}
+			}
+			return n > 0 && good
+		}
+	}
+	return false
+}
+
+// localCallees: the functions of the same package fn calls directly.
+func localCallees(fn *ssa.Function) []*ssa.Function {
+	seen := map[*ssa.Function]bool{}
+	var out []*ssa.Function
+	allInstrs(fn, func(in ssa.Instruction) {
+		if call, ok := in.(ssa.CallInstruction); ok {
+			if cal := call.Common().StaticCallee(); cal != nil && cal.Pkg == fn.Pkg && !seen[cal] && cal != fn {
+				seen[cal] = true
+				out = append(out, cal)
+			}
+		}
+	})
+	return out
 }
 
 func condMentionsKindFunc(v ssa.Value, depth int) bool {
